@@ -224,9 +224,16 @@ def body_for(rng, v, near):
         declared = len(name) if rng.random() < 0.85 else len(name) + rng.choice([1, 9])
         body = [("bu", str(declared))] + [("by", str(b)) for b in name.encode()[:nbytes]]
         if nbytes == len(name):
-            body.append(("by", "0"))
-            if rng.random() < 0.3:
-                body.append(("bs", "tail"))
+            c2 = rng.random()
+            if c2 < 0.7:
+                body.append(("by", "0"))
+                if rng.random() < 0.3:
+                    body.append(("bs", "tail"))
+            elif c2 < 0.8:
+                body.append(("by", str(rng.choice([1, 46, 97]))))      # terminator position holds another byte
+            elif c2 < 0.9:
+                body.append(("bu", str(rng.choice([0, 5]))))           # padding or the low byte of the u32 is the terminator
+            # else: nothing after the bytes
     return body
 
 
